@@ -468,9 +468,12 @@ func (g *Gen) eval(x *CExpr, env *Env) (Val, error) {
 		case "Int":
 			if bv.Ty != nil {
 				if mt, ok := types.Unalias(bv.Ty).Underlying().(*types.Map); ok && !env.noHeap {
-					_, _, vn, vs := g.mapHeaps(mt)
+					dn, ds, vn, vs := g.mapHeaps(mt)
+					dh := g.heapTerm(env.st, dn, ds)
 					vh := g.heapTerm(env.st, vn, vs)
-					return Val{T: fmt.Sprintf("(select (select %s %s) %s)", vh, bv.T, iv.T), S: g.sortOf(mt.Elem()), Ty: mt.Elem()}, nil
+					// Go semantics: the zero value when the key is absent
+					present := fmt.Sprintf("(select (select %s %s) %s)", dh, bv.T, iv.T)
+					return Val{T: sIte(present, fmt.Sprintf("(select (select %s %s) %s)", vh, bv.T, iv.T), g.zero(mt.Elem())), S: g.sortOf(mt.Elem()), Ty: mt.Elem()}, nil
 				}
 			}
 		}
